@@ -90,6 +90,9 @@ type World struct {
 	MS    cctptypes.MsgServer
 	Probe *DepsProbe
 	Rec   *RecStoreService
+
+	plain        bool // cctp keeper wired to the real dependencies directly
+	sharedKeeper bool // keepers belong to another world / a SharedCCTP: never replaced
 }
 
 var sharedCdc codec.Codec
@@ -136,7 +139,7 @@ func newWorldCdc(kind StoreKind, cdc codec.Codec) *World {
 
 func newWorldOpt(kind StoreKind, cdc codec.Codec, plain bool, share *World) *World {
 	ensureConfig()
-	w := &World{Kind: kind, cdc: cdc}
+	w := &World{Kind: kind, cdc: cdc, plain: plain, sharedKeeper: share != nil}
 	logger := log.NewNopLogger()
 	root := dbm.NewMemDB()
 	w.cms = store.NewCommitMultiStore(root, logger, metrics.NewNoOpMetrics())
@@ -350,9 +353,30 @@ func ParseDump(d []byte) []KV {
 	return out
 }
 
+// freshCCTPKeeper replaces the cctp keeper and msg server by newly constructed
+// objects. Load does this because a restored state is a jump to an unrelated
+// point of the state graph: whatever an implementation might retain in its keeper
+// object belongs to the history just abandoned. Every transition after a Load is
+// therefore judged as a function of (chain state, transaction) alone; behaviour
+// that depends on memory retained between transactions is decided separately by
+// executions that never restore (BFS.SeqDepth legs, preambles, and all of C18).
+func (w *World) freshCCTPKeeper() {
+	if w.sharedKeeper {
+		return
+	}
+	logger := log.NewNopLogger()
+	if w.plain {
+		w.K = cctpkeeper.NewKeeper(w.cdc, logger, runtime.NewKVStoreService(w.keys[stCCTP]), w.BK, w.FTF)
+	} else {
+		w.K = cctpkeeper.NewKeeper(w.cdc, logger, w.Rec, w.Probe, w.Probe)
+	}
+	w.MS = cctpkeeper.NewMsgServerImpl(w.K)
+}
+
 // Load replaces the content of all stores by the dump. On KindDB worlds the
 // backing MemDBs are swapped; on IAVL worlds the world must be fresh (empty).
 func (w *World) Load(d []byte) {
+	w.freshCCTPKeeper()
 	if w.Kind == KindDB {
 		for i := 0; i < nStores; i++ {
 			w.dbs[i].DB = dbm.NewMemDB()
@@ -470,7 +494,6 @@ func (w *World) Supply(denom string) math.Int {
 
 func (w *World) Ctx() sdk.Context { return w.ctx }
 
-
 // ---------------------------------------------------------------------------
 // One cctp keeper shared by several instances whose *dependencies* are their own.
 //
@@ -547,5 +570,6 @@ func (sc *SharedCCTP) NewInstance(kind StoreKind) *World {
 	}
 	w.ctx = sdk.NewContext(w.cms, cmtproto.Header{Height: 1, ChainID: "verif-1"}, false, logger).WithValue(instKey, w)
 	w.K, w.MS = sc.K, sc.MS
+	w.sharedKeeper = true
 	return w
 }
